@@ -6,8 +6,9 @@ import DarkluaModel.Rules.EvalApi
 `Processor::process_local_assign_statement`, step by step (the early `return`s leave the
 mutations made so far in place). One `DefaultVisitor` pass.
 
-Known defect F24: the variables whose `nil` value was removed are moved to the end of the
-variable list — with a repeated name this changes which declaration is visible.
+F24 (fixed): the variables whose `nil` value was removed are moved to the end of the variable
+list — with a repeated name that changed which declaration is visible; such declarations are
+now left alone.
 -/
 namespace DarkluaModel.Rules.NilDeclaration
 open DarkluaModel.Rules
@@ -40,6 +41,12 @@ def wrapLast (api : EvalApi) : List Expr → List Expr
   | [v] => if api.canReturnMultiple v then [.paren v] else [v]
   | v :: rest => v :: wrapLast api rest
 
+def tnamesOf (ns : List TName) : List String := ns.map fun | .mk n _ => n
+
+def distinct : List String → Bool
+  | [] => true
+  | n :: rest => !rest.contains n && distinct rest
+
 def processLocal (api : EvalApi) : Stmt → Stmt
   | .localAssign .loc ns vs =>
     let nv := ns.length
@@ -47,6 +54,7 @@ def processLocal (api : EvalApi) : Stmt → Stmt
     let vs1 := vs.take nv ++ (vs.drop nv).filter api.hasSideEffects
     if vs1.length > nv then .localAssign .loc ns vs1
     else if !vs1.any isNil then .localAssign .loc ns vs1
+    else if !distinct (tnamesOf ns) then .localAssign .loc ns vs1   -- (fix of F24: a name is declared twice)
     else if nv > vs1.length && (match vs1.getLast? with | some l => api.canReturnMultiple l | none => false) then
       .localAssign .loc ns vs1
     else
@@ -58,31 +66,5 @@ def processor (api : EvalApi) : Processor Unit := { stmtNode := fun s u => (proc
 
 /-- `flawless_process` -/
 def apply (api : EvalApi) (b : Block) : Block := (Visitor.runDefault (processor api) b ()).1
-
-/-! ### the defect region (F24): a declaration whose variable ORDER changes while a name repeats -/
-
-def namesOf : Stmt → List String
-  | .localAssign _ ns _ => ns.map fun | .mk n _ => n
-  | _ => []
-
-def distinct : List String → Bool
-  | [] => true
-  | n :: rest => !rest.contains n && distinct rest
-
-/-- the declaration with its variables renamed to their positions `0, 1, …` (the rewrite only
-moves variables around, it never looks at their names) -/
-def tagPositions : Stmt → Stmt
-  | .localAssign kind ns vs =>
-    .localAssign kind (ns.zipIdx.map fun p => match p with | (.mk _ ty, i) => .mk (toString i) ty) vs
-  | s => s
-
-def reordersDuplicates (api : EvalApi) (s : Stmt) : Bool :=
-  namesOf (processLocal api (tagPositions s)) != namesOf (tagPositions s) && !distinct (namesOf s)
-
-def regionProcessor (api : EvalApi) : Processor Bool :=
-  { stmtNode := fun s st => (s, st || reordersDuplicates api s) }
-
-/-- `true`: some declaration with a repeated name is reordered (outside `H`) -/
-def outsideH (api : EvalApi) (b : Block) : Bool := (Visitor.runDefault (regionProcessor api) b false).2
 
 end DarkluaModel.Rules.NilDeclaration
